@@ -431,13 +431,10 @@ class OpGen:
             if tgt is None:
                 tgt = self.clsarg(c['name'], self.ns(False))
             op = {'op': kind, 'p': [_case(r, m['name']), tgt]}
-            # NULL values and empty arrays carry no type when given as
-            # (name, value) tuples or keywords: use CIMParameter for those
-            untyped = any(v.get('v', 1) is None or v.get('a', 1) in (None, [])
-                          or (v.get('a') and v['a'][0] is None)
-                          for _n, v in params)
+            # (NULL values and empty arrays carry no type when given as
+            # (name, value) tuples or keywords; both paths must cope)
             k = r.random()
-            if untyped or k < 0.34:
+            if k < 0.34:
                 op['a'] = {'Params': {'$cimparams': params}}
             elif k < 0.67:
                 op['a'] = {'Params': {'$params': params}}
